@@ -52,6 +52,7 @@ class BlockMachine(Machine):
         self.urefs = {}
         self.bufs = {}
         self.mem = {}             # (region, idx) -> token
+        self.heap = {}            # (object, 'next'|'prev') -> object: the links of uchain structures
         self.views = {}           # region -> (buf id, offset) for mapped windows
         self.track = set()        # regions whose octets must be written before they are read
         self.events = []          # ('output', uref id, tokens, attrs) | ('throw', name, ...) | ('log', name)
@@ -195,13 +196,36 @@ class BlockMachine(Machine):
             if field == 'ubuf':
                 return ('ubuf', u.ubuf) if u.ubuf is not None else ('null',)
             return SYM
+        if rec == 'uchain' and field in ('next', 'prev'):
+            return self.heap.get((obj, field), ('null',))
         if rec == self.pipe_rec:
             return self.f.get(field, SYM)
         return SYM
 
+    def make_list(self, head, elems):
+        """circular doubly linked list (ulist) with the given head object"""
+        ring = [head] + list(elems)
+        for i, x in enumerate(ring):
+            self.heap[(x, 'next')] = ring[(i + 1) % len(ring)]
+            self.heap[(x, 'prev')] = ring[(i - 1) % len(ring)]
+
+    def list_of(self, head):
+        out, x, n = [], self.heap.get((head, 'next'), head), 0
+        while x != head and n < 64:
+            out.append(x)
+            x = self.heap.get((x, 'next'), head)
+            n += 1
+        return out
+
+    def head(self, rec, field):
+        return ('addr', 'field', ('obj', 'pipe'), rec, field)
+
     def field_store(self, obj, rec, field, v, node):
         if isinstance(obj, tuple) and obj[0] == 'uref' and rec == 'uref' and field == 'ubuf':
             self.urefs[obj[1]].ubuf = v[1] if isinstance(v, tuple) and v[0] == 'ubuf' else None
+            return
+        if rec == 'uchain' and field in ('next', 'prev'):
+            self.heap[(obj, field)] = v
             return
         if rec == self.pipe_rec:
             self.f[field] = v
@@ -267,19 +291,21 @@ class BlockMachine(Machine):
             return True
         if callee.name in self.inline or any(callee.name.startswith(p) for p in self.inline if p.endswith('_')):
             return True
+        if callee.name.startswith(('ulist_', 'uchain_')) and f.endswith(('upipe/ulist.h', 'upipe/ubase.h')):
+            return True       # pure link manipulation, interpreted on the ghost heap
         return False
 
     def api(self, fn, node, name, v, env, depth):
         ln = node.get('l')
         if name in self.output_fns:
-            self.output(v[1], ln)
+            self.output(v[1], ln, v[0])
             return None
         if name == 'ubase_check':
             return SYM if not isinstance(v[0], int) else int(v[0] == 0)
         if name in ('__builtin_expect',):
             return v[0]
-        if CONV_RE.search(name) and len(v) == 1 and not name.startswith(('uref_', 'ubuf_')):
-            return v[0]
+        if (CONV_RE.search(name) and len(v) == 1 and not name.startswith(('uref_', 'ubuf_'))) or name in ('uref_to_uchain', 'uref_from_uchain'):
+            return v[0]       # a structure and the uchain embedded in it are one object here
         if LOG_RE.match(name):
             self.events.append(('log', name, ln))
             return None
@@ -504,7 +530,7 @@ class BlockMachine(Machine):
         return NotImplemented
 
     # ---- end-of-run reports ---------------------------------------------------
-    def output(self, uref_val, ln=None):
+    def output(self, uref_val, ln=None, pipe=None):
         u = self.urefs[uref_val[1]]
         if u.freed:
             raise Finding('use after free', ln, 'freed uref %d handed to the output' % u.id)
@@ -512,7 +538,7 @@ class BlockMachine(Machine):
             raise Finding('double output', ln, 'uref %d handed to the output twice' % u.id)
         u.state = 'output'
         data = None if u.ubuf is None else list(self.bufs[u.ubuf].data)
-        self.events.append(('output', u.id, data, dict(u.attrs)))
+        self.events.append(('output', u.id, data, dict(u.attrs), pipe))
 
     def leaked(self, keep=()):
         """urefs / buffers neither freed, output, nor referenced by `keep`
